@@ -87,7 +87,11 @@ func writtenBytes(pre, after string) []byte {
 	return data
 }
 
+// lastTracedStoreErr is the error string the traced (uncrashed) store returned, "" when it succeeded.
+var lastTracedStoreErr string
+
 func traceStore(env *storeEnv, reqs []childReq, dir, scratch string) ([]sysCall, int, error) {
+	lastTracedStoreErr = ""
 	prefix := filepath.Join(scratch, "trace")
 	in, _ := json.Marshal(reqs)
 	cmd := exec.Command("strace", "-ff", "-y", "-s", "0", "-o", prefix, env.bin)
@@ -141,6 +145,10 @@ func traceStore(env *storeEnv, reqs []childReq, dir, scratch string) ([]sysCall,
 			}
 		}
 		calls = append(calls, c)
+	}
+	var res []childRes
+	if json.Unmarshal(out.Bytes(), &res) == nil && len(res) == 1 {
+		lastTracedStoreErr = res[0].Err
 	}
 	return calls, otherThreads, nil
 }
@@ -254,7 +262,9 @@ func c20Run(env *storeEnv, sc c20Scenario, work string) (int, int, error) {
 	for _, d := range [][]byte{sc.Neighbour, sc.OldDoc} {
 		if d != nil {
 			if r := env.run(storeReq(pre, d)); r.Exit != 0 || len(r.Res) != 1 || r.Res[0].Err != "" {
-				return 0, 0, fmt.Errorf("preparing the old state failed: exit=%d %+v %s", r.Exit, r.Res, r.Stderr)
+				// the store refuses this document (a stricter validation, say): nothing to crash — not this check's subject
+				hx.Class("scenario_skipped(preparatory store refused)")
+				return 0, 0, nil
 			}
 		}
 	}
@@ -267,6 +277,11 @@ func c20Run(env *storeEnv, sc c20Scenario, work string) (int, int, error) {
 	calls, other, err := traceStore(env, storeReq(traced, sc.NewDoc), filepath.Join(traced, base), work)
 	if err != nil {
 		panic("HARNESS-SELFTEST " + err.Error())
+	}
+	if lastTracedStoreErr != "" && !refused {
+		// the complete store itself is refused (a validation, a lost-update guard): there is no store to crash
+		hx.Class("scenario_skipped(store refused: " + trunc(lastTracedStoreErr, 60) + ")")
+		return 0, 0, nil
 	}
 	if other > 0 {
 		return 0, 0, fmt.Errorf("HARNESS-SELFTEST the store issued %d file-system calls from threads other than the main thread; the crash-point index is not stable", other)
